@@ -177,6 +177,9 @@ class AndersonCD(BaseSolver):
                     _verif.emit("epoch", t=t, epoch=epoch, w=w, Xw=Xw)
 
                 # 3) do Anderson acceleration on smaller problem
+                # (coefficients outside the working set keep their value: Xw_acc
+                # extrapolates the full model fit, which contains their contribution)
+                w_acc[:] = w
                 w_acc[ws_intercept], Xw_acc[:], is_extrap = accelerator.extrapolate(
                     w[ws_intercept], Xw)
 
